@@ -152,3 +152,12 @@ def run(ctx):
 
 def run_fixture(fctx):
     return {'R01.1': sum(1 for i in r01_1(fctx) if not i['ok'])}
+
+
+THOROUGH_FLOORS = {'E01.3': 8}
+
+
+def run_thorough(ctx):
+    from runner import collect
+    from rules import e2e
+    return collect(ctx, e2e.e01)
